@@ -172,15 +172,6 @@ fn c11_q_legacy_04_skip_0_3() {
 #[kani::stub(std::collections::HashMap::insert, crate::vklib::hm_insert)]
 #[kani::stub(crate::palette::ColorPalette::color, crate::vklib::side_color)]
 #[kani::stub(std::collections::HashMap::len, crate::vklib::hm_len)]
-fn c11_t_legacy_11_skip_1_2() {
-    legacy(true, 1, 2);
-}
-#[kani::proof]
-#[kani::unwind(11)]
-#[kani::stub(alloc::fmt::format, crate::vklib::empty_format)]
-#[kani::stub(std::collections::HashMap::insert, crate::vklib::hm_insert)]
-#[kani::stub(crate::palette::ColorPalette::color, crate::vklib::side_color)]
-#[kani::stub(std::collections::HashMap::len, crate::vklib::hm_len)]
 fn c11_q_legacy_04_skip_200_100() {
     legacy(false, 200, 100);
 }
